@@ -20,8 +20,8 @@ import (
 
 type codecImpl struct {
 	buf   *commit.Buffer
-	n     int        // number of puts so far (selects the Put* variant)
-	kinds []opKind   // chunk and kind of every op in the buffer, in buffer order
+	n     int      // number of puts so far (selects the Put* variant)
+	kinds []opKind // chunk and kind of every op in the buffer, in buffer order
 	logW  *commit.Log
 	logB  *bytes.Buffer
 }
